@@ -12,11 +12,16 @@ are scanned for the key, and after every modelled write the modelled files are r
 abstracted (which config / key blank / run_id) — that observed file system must equal the model's
 `fsAt (traceG …) n`, and the abstracted event list must equal `traceG … flags`.
 
-The model has two versions: `repaired` (what the property demands; the code with
-fixes/C19-blank-key.patch) and `asis` (the pinned tree; findings F-C19, F-C19b).  A run that
-violates the property is routed to a known finding only when it is *exactly* the `asis` model's
-behaviour (same events, same file system at every boundary, leaks only where `asis` leaks);
-anything else (a key in another file, a later write that leaks, a missing artefact) is a VIOLATION.
+The model's `repaired` version is the tree as it is now (all C19 fixes applied); it is what every run is
+compared with.  `asis` (the originally pinned tree; F-C19, F-C19b) and `keyfixed` (before b1bbd3c; F-C19c)
+are kept as regression records: a failing run that is *exactly* one of them carries that finding's
+signature — all three findings are `fixed`, so the signature suppresses nothing and names the regression.
+
+Besides single fresh runs, two kinds of two-run histories are executed with the real trainer:
+`reuse` (run 2 has use_existing_chunks=True on run 1's chunk dir, new checkpoint dir; model `traceR`,
+`fsReuseAt`) and `same_folder` (run B, another configuration, started in run A's folder; model `traceS`,
+`fsSameAt`: the file system before B's first write is A's final state with A's configs `stale`;
+B's checkpoints go to best-v1.ckpt / last-v1.ckpt when A left checkpoints).
 
 All output goes to a `tempfile.mkdtemp` scratch directory that is removed afterwards.
 """
@@ -47,6 +52,9 @@ THEOREMS = [
     "SleapVerif.C19.no_key_at_any_crash_point_reuse",
     "SleapVerif.C19.artefacts_complete_reuse",
     "SleapVerif.C19.train_total_reuse",
+    "SleapVerif.C19.no_key_at_any_crash_point_same_folder",
+    "SleapVerif.C19.artefacts_complete_same_folder",
+    "SleapVerif.C19.train_total_same_folder",
     "SleapVerif.C19.keyFixed_fresh_eq_repaired",
     "SleapVerif.C19.reuse_bottomup_raises_counterexample",
     "SleapVerif.C19.keyFixed_reuse_partial",
@@ -814,8 +822,9 @@ def check_case(chk: Check, case, rec=None):
         return rec, "repaired"
     slim0 = {k: rec[k] for k in ("case", "trace", "fs", "exception", "final", "rounds", "ckpt_name")}
     if len(out) == 6:
-        # F-C19c: the tree with only the key / run_id repair (`Version.keyFixed`) differs from the repaired
-        # model exactly on bottom-up runs that re-use chunks, where it raises while building the datasets
+        # F-C19c (fixed by b1bbd3c; the entry is `fixed`, so this signature suppresses nothing and the failure is a
+        # regression VIOLATION): the tree with only the key / run_id repair (`Version.keyFixed`) differs from the
+        # repaired model exactly on bottom-up runs that re-use chunks, where it raises while building the datasets
         kf_t, kf_fs = out[4].split()[1:], [s.strip() for s in out[5][3:].split("|")]
         ok_kf, _ = matches_model(rec, kf_t, kf_fs)
         if ok_kf and not ok_rep and rec["exception"] and rec["exception"]["class"] == "AttributeError" \
